@@ -500,6 +500,8 @@ package goatlang
 //@   ensures#depth len(v.stack) >= v.frame.BaseN + slotsOf(v.frame.Codes)
 //@   ensures#callerframes forall j int :: 0 <= j && j < v.frame.BaseN ==> v.stack[j] == old(v.stack[j])
 //@   ensures#backtrace len(v.backtrace) == old(len(v.backtrace))
+//@   trusted_ensures len(v.stack) >= v.frame.BaseN + slotsOf(v.frame.Codes) + yields(v.frame.Codes)
+//@   trusted_ensures validStack(v)
 //@
 //@ func (*VM).exec loop 0
 //@   invariant v.frame.Codes == codes && v.frame.BaseN == baseN && l == len(codes)
@@ -1353,3 +1355,36 @@ package goatlang
 //@   ensures#delta len(v.stack) == old(len(v.stack)) - int(old(ins(v)).A) + 1
 //@   ensures#frame keeps(v, len(v.stack) - 1)
 //@   ensures#next stays(v)
+
+// ---- script function activation (C09, C07, C20): the closure built by mkFunc ----
+//@ ghost yields(c []instruction) int
+//@
+//@ func mkFunc closure 0
+//@   property C09 C07 C20
+//@   captures#shape 0 <= args && 0 <= rets && args <= slots && args + rets <= len(tokens) && len(empty) == slots - args && codes == tokens[args+rets:]
+//@   captures#zero forall j int :: 0 <= j && j < len(empty) ==> empty[j] == Value{}
+//@   requires v != nil && len(v.stack) >= args
+//@   assumes validStack(v) && slotsOf(codes) == slots && yields(codes) >= rets && arr(empty) != arr(v.stack)
+//@   assumes 0 <= v.frame.N && v.frame.N < len(v.frame.Codes)
+//@   modifies *
+//@   ensures#results len(v.stack) >= old(len(v.stack)) - args + rets
+//@   ensures#frame forall j int :: 0 <= j && j < old(len(v.stack)) - args ==> v.stack[j] == old(v.stack[j])
+//@   ensures#restore v.frame == old(v.frame) && v.globals == old(v.globals) && len(v.backtrace) == old(len(v.backtrace))
+//@   callsite#entry (*VM).exec: v.frame.BaseN == old(len(v.stack)) - args && v.frame.Codes == codes && len(v.stack) == old(len(v.stack)) - args + slots
+//@   callsite#btpush (*VM).exec: len(v.backtrace) == old(len(v.backtrace)) + 1 && v.backtrace[len(v.backtrace)-1] == old(v.frame.Codes[v.frame.N].Pos)
+//@   callsite#argtypes (*VM).exec: forall p int :: old(len(v.stack)) - args <= p && p < old(len(v.stack)) ==> v.stack[p] == old(v.stack[p]).assign(Type(tokens[p - (old(len(v.stack)) - args)].A))
+//@   callsite#zeroslots (*VM).exec: forall p int :: old(len(v.stack)) <= p && p < old(len(v.stack)) - args + slots ==> v.stack[p] == Value{}
+//@   callsite#below (*VM).exec: forall j int :: 0 <= j && j < old(len(v.stack)) - args ==> v.stack[j] == old(v.stack[j])
+//@ func mkFunc closure 0 loop 0
+//@   invariant 0 <= i && i <= args && len(v.stack) == old(len(v.stack)) && v.frame.BaseN == old(len(v.stack)) - args && v.frame.Codes == codes && v.globals == old(v.globals)
+//@   invariant len(v.backtrace) == old(len(v.backtrace)) + 1 && v.backtrace[len(v.backtrace)-1] == old(v.frame.Codes[v.frame.N].Pos) && prev == old(v.frame)
+//@   invariant forall j int :: 0 <= j && j < old(len(v.stack)) - args ==> v.stack[j] == old(v.stack[j])
+//@   invariant forall p int :: old(len(v.stack)) - args <= p && p < old(len(v.stack)) - args + i ==> v.stack[p] == old(v.stack[p]).assign(Type(tokens[p - (old(len(v.stack)) - args)].A))
+//@   invariant forall p int :: old(len(v.stack)) - args + i <= p && p < old(len(v.stack)) ==> v.stack[p] == old(v.stack[p])
+//@   invariant forall j int :: 0 <= j && j < len(empty) ==> empty[j] == Value{}
+//@   invariant arr(v.stack) == old(arr(v.stack))
+//@ func mkFunc closure 0 loop 1
+//@   invariant 0 <= i && i <= rets && prev == old(v.frame) && v.globals == old(v.globals) && len(v.backtrace) == old(len(v.backtrace)) + 1
+//@   invariant len(v.stack) >= old(len(v.stack)) - args + rets
+//@   invariant forall j int :: 0 <= j && j < old(len(v.stack)) - args ==> v.stack[j] == old(v.stack[j])
+//@   invariant forall p int :: len(v.stack) - rets + i <= p && p < len(v.stack) ==> valid(v.stack[p])
